@@ -46,7 +46,7 @@ CHECKS = {
         technique="deterministic simulation (W-H handler world): enumerated single-datagram corruption + seeded corruption faults, carrier oracle over the inbound history"),
     "C03": dict(
         cat="fault_enumeration", ref="DESIGN.md §5 C03",
-        text="Bounded fault enumeration plus seeded exploration of replays: for 7 base exchanges every recorded handshake/WHOAREYOU datagram x every later point of the exchange (incl. after expiry and during a later exchange) x {original source, other address, towards another node} is re-injected (2352 cases, all executed in both tiers). Oracle: every recipient-side session creation or re-key (key log) consumes one fresh, unexpired, not yet consumed challenge whose data the delivered handshake's signature verifies against; every new handshake a node emits follows a WHOAREYOU from that address echoing the nonce of a datagram it sent there; at most one handshake per request (read from the handshake with the logged key); id-nonces never repeat.",
+        text="Bounded fault enumeration plus seeded exploration of replays: for 8 base exchanges every recorded handshake/WHOAREYOU datagram x every later point of the exchange (incl. after expiry and during a later exchange) x {original source, other address, towards another node} is re-injected (2688 cases, all executed in both tiers). Oracle: every recipient-side session creation or re-key (key log) consumes one fresh, unexpired, not yet consumed challenge whose data the delivered handshake's signature verifies against; every new handshake a node emits follows a WHOAREYOU from that address echoing the nonce of a datagram it sent there; at most one handshake per request (read from the handshake with the logged key); id-nonces never repeat.",
         note="Trusted: the crate's id-signature verification for attributing an accepted handshake to its challenge; challenge expiry = request_timeout after the WHOAREYOU or after the last handshake that may have re-armed it.",
         technique="deterministic simulation (W-H handler world): enumerated replay injection + seeded exploration, challenge-consumption ledger"),
     "C15": dict(
@@ -103,21 +103,22 @@ CHECKS = {
 
 FULL_STACK = " A further scenario runs 2-5 complete Discv5 nodes (public API, service, handler, sessions, tables, query pool, receive path; all honest) on the virtual network with drop / duplicate / delay / bit-flip / late-replay / partition / node-restart faults and tiny session caches or short session lifetimes as per-run knobs"
 EXTRA = {
-    "C01": " A second scenario runs the service world of C12: who-are-you queries for table nodes (undecryptable packets claiming them) must not change their entries. A fifth of the handler runs use an IPv6-only network. Each challenge justifies one session only; genuine handshakes are sometimes damaged in their message part and re-presented repeatedly. In a third of the runs a genuine peer lies about who it is after an honest handshake: it answers the handler's own record request (FINDNODE [0] to a contact dialled without a record) with a validly signed record of another identity.",
-    "C02": " Explored runs: a fifth on an IPv6-only network, peers advertising another port, datagrams presented from the sender's IP on another port or from the advertised socket. Exploration also lets a party with keys of its own answer a WHOAREYOU in the challenged peer's name from the peer's address.",
-    "C03": " Exploration also presents WHOAREYOU and handshake datagrams from the sender's IP on another UDP port and delivers damaged genuine handshakes repeatedly, and holds genuine handshakes back until around or past the expiry of the challenge they answer while further undecryptable packets in the sender's name arrive.",
+    "C01": " After a who-are-you query the service must not dial the claimed node at the socket the unauthenticated packet named. A second scenario runs the service world of C12: who-are-you queries for table nodes (undecryptable packets claiming them) must not change their entries. A fifth of the handler runs use an IPv6-only network. Each challenge justifies one session only; genuine handshakes are sometimes damaged in their message part and re-presented repeatedly. In a third of the runs a genuine peer lies about who it is after an honest handshake: it answers the handler's own record request (FINDNODE [0] to a contact dialled without a record) with a validly signed record of another identity.",
+    "C02": " Forged messages under trivial keys are injected. Explored runs: a fifth on an IPv6-only network, peers advertising another port, datagrams presented from the sender's IP on another port or from the advertised socket. Exploration also lets a party with keys of its own answer a WHOAREYOU in the challenged peer's name from the peer's address.",
+    "C03": " The key a node encrypts with may move back to an earlier handshake's only if a message under those keys arrived since the re-key (8 base exchanges, 2688 enumerated cases). Exploration also presents WHOAREYOU and handshake datagrams from the sender's IP on another UDP port and delivers damaged genuine handshakes repeatedly, and holds genuine handshakes back until around or past the expiry of the challenge they answer while further undecryptable packets in the sender's name arrive.",
     "C04": " A fifth of the runs use an IPv6-only network; bit flips and late replays are part of the network profile. Session-cache capacity (1-2) and session lifetime (0.3-5 s) are per-run knobs, so sessions are evicted or expire in mid-exchange.",
-    "C09": " The pool world also checks the query timeout itself (a poll that examined every query must not leave one in the pool that is past the timeout)." + FULL_STACK + ": every API future must return within a bound after the faults stop.",
-    "C10": FULL_STACK + ": every find_node result is checked at the API (distinct, not the local node, increasing distance, at most 16, each id belongs to a node that put a NODES response to the caller on the wire).",
-    "C11": " ban_duration is the default, 10 min or None." + FULL_STACK + ": the ban list must stay empty.",
+    "C09": " The service-level lookup scenario has silent peers and a second lookup that runs while requests of the first are still being answered. The pool world also checks the query timeout itself (a poll that examined every query must not leave one in the pool that is past the timeout)." + FULL_STACK + ": every API future must return within a bound after the faults stop.",
+    "C10": " The service-level lookup scenario uses tables larger than k and checks completeness over the records the service accepted." + FULL_STACK + ": every find_node result is checked at the API (distinct, not the local node, increasing distance, at most 16, each id belongs to a node that put a NODES response to the caller on the wire).",
+    "C11": " The node's own max_nodes_response is 4..64 (the honest responder model follows it). ban_duration is the default, 10 min or None." + FULL_STACK + ": the ban list must stay empty.",
     "C12": " On real handlers the adversary's own identity is known to the victim with a lower, equal or higher sequence number than the record its handshake attaches (a held record is replaced only by a strictly newer one). Record shapes include an IPv4 address without UDP port. The identity world includes a peer presenting another identity's record in answer to the handler's own record request.",
-    "C13": " A lower bound is checked as well (transmitted requests without outcome, from the request-transmission log). Session-cache capacity and lifetime are per-run knobs; a banned-peer-bypass scenario checks that an exemption really lets a banned peer's answer through and nothing else." + FULL_STACK + ": all exemption maps must be empty once every API call returned and the address has been silent for a timeout.",
-    "C14": " PING sources are IPv4, IPv6 and IPv4-mapped addresses with ports from the whole range; the local record is sometimes updated before a PING; record sizes vary at byte granularity." + FULL_STACK + ": every NODES and PONG on the wire is decrypted with the key log and checked (requested distances only, never the requester's record, only table entries or the own record, PONG reports the requester's address and the current sequence number).",
-    "C15": " The victim's application sometimes answers only after the session a request came in on has expired; a fifth of the runs use IPv6. A third scenario combines both: a full cache in which one session expires (its peer possibly crashed, the expired entry possibly looked up again) must drop that one, not a live one, when a new peer arrives.",
+    "C13": " In the banned-peer scenario another endpoint on the awaited peer's IP must not profit from the exemption. A lower bound is checked as well (transmitted requests without outcome, from the request-transmission log). Session-cache capacity and lifetime are per-run knobs; a banned-peer-bypass scenario checks that an exemption really lets a banned peer's answer through and nothing else." + FULL_STACK + ": all exemption maps must be empty once every API call returned and the address has been silent for a timeout.",
+    "C14": " Tables of up to 176 nodes. PING sources are IPv4, IPv6 and IPv4-mapped addresses with ports from the whole range; the local record is sometimes updated before a PING; record sizes vary at byte granularity." + FULL_STACK + ": every NODES and PONG on the wire is decrypted with the key log and checked (requested distances only, never the requester's record, only table entries or the own record, PONG reports the requester's address and the current sequence number).",
+    "C15": " A retransmission mode (retries 2-3, sessions shorter than a request timeout, late answers). The victim's application sometimes answers only after the session a request came in on has expired; a fifth of the runs use IPv6. A third scenario combines both: a full cache in which one session expires (its peer possibly crashed, the expired entry possibly looked up again) must drop that one, not a live one, when a new peer arrives.",
     "C16": " The node listens on IPv4, IPv6 only or both. Operations are aimed at the current pending candidate more often than chance. An eighth of the IPv4 records carry an address without a UDP port, another eighth IPv4 and IPv6 endpoints together.",
-    "C17": " PINGs to voters sometimes time out (their unexpired votes stand). Every SocketUpdated event must announce an address the record now advertises. Dual-stack mode (per-family votes) is included.",
+    "C17": " The application sometimes overrides the advertised socket by hand. PINGs to voters sometimes time out (their unexpired votes stand). Every SocketUpdated event must announce an address the record now advertises. Dual-stack mode (per-family votes) is included.",
+    "C18": " Sender addresses are IPv4, IPv4-mapped IPv6 and IPv6.",
     "C19": FULL_STACK + ": the same uniqueness oracle over all nodes' traffic.",
-    "C20": " Payloads may be explicitly empty; the application sometimes panics while holding a request. The application may sit on requests for 50 ms to 10 min of simulated time." + FULL_STACK + ": TALKRESP packets on the wire never outnumber the TalkRequest events, carry a payload the application produced, and match the events in number at the end (unless the node restarted or its handler dropped a response for lack of a session).",
+    "C20": " Payloads of every size class up to 5000 bytes, possibly empty; the application sometimes panics while holding a request. The application may sit on requests for 50 ms to 10 min of simulated time." + FULL_STACK + ": TALKRESP packets on the wire never outnumber the TalkRequest events, carry a payload the application produced, and match the events in number at the end (unless the node restarted or its handler dropped a response for lack of a session).",
 }
 
 NOT_APPLICABLE = {
